@@ -49,7 +49,7 @@ def r14_4(ctx, rep):
         if any(carries_request(t) for t in tys):
             handlers.add(n)
     handler_inst = {g.callee_inst[n].id for n in handlers}
-    if not rep.expect("R14.4", "receive sites and the non-Write handler in the worker", len(recvs) >= 2 and len(handlers) >= 1,
+    if not rep.expect("R14.4", "receive sites and the non-Write handler in the worker", len(recvs) >= 1 and len(handlers) >= 1,
                       "found %d receive sites, %d handler call(s)" % (len(recvs), len(handlers)), where=g.where(g.entry)):
         return
 
